@@ -123,3 +123,36 @@ func init() {
 		}},
 	)
 }
+
+var verifHostCounter = 5
+var verifHostFlag bool
+var verifHostList = []int{1}
+
+func init() {
+	// C07: a variable supplied by the host is read when the statement runs, and assignments reach it
+	hostVar := func() (observed bool, detail string) {
+		defer func() {
+			if r := recover(); r != nil {
+				observed, detail = true, fmt.Sprintf("Eval panicked: %v", r)
+			}
+		}()
+		verifHostCounter, verifHostFlag, verifHostList = 5, false, []int{1}
+		var out bytes.Buffer
+		i := New(Options{Stdout: &out, Stderr: &out})
+		if err := i.Use(stdlib.Symbols); err != nil {
+			return true, err.Error()
+		}
+		if err := i.Use(Exports{"host/host": {
+			"Counter": reflect.ValueOf(&verifHostCounter).Elem(),
+			"Flag":    reflect.ValueOf(&verifHostFlag).Elem(),
+			"List":    reflect.ValueOf(&verifHostList).Elem(),
+			"Set":     reflect.ValueOf(func() { verifHostFlag = true; verifHostCounter = 50 }),
+		}}); err != nil {
+			return true, err.Error()
+		}
+		_, err := i.Eval("package main\nimport (\"fmt\"; \"host\")\nfunc main() {\n host.Counter = 7\n x := host.Counter\n fmt.Println(x, host.Counter == 7, host.Counter + 1)\n host.Set()\n if host.Flag { fmt.Println(\"flag seen\", -host.Counter) } else { fmt.Println(\"flag not seen\") }\n host.List = append(host.List, 2)\n fmt.Println(host.List)\n}")
+		want := "7 true 8\nflag seen -50\n[1 2]\n"
+		return out.String() != want || err != nil || len(verifHostList) != 2, fmt.Sprintf("output %q (err %v, host list %v); with the variables declared in the script itself the program prints %q", out.String(), err, verifHostList, want)
+	}
+	verifProtocolScenarios = append(verifProtocolScenarios, verifScenario{"C07/interp.Interpreter.cfg/if:binPkg/*", hostVar}, verifScenario{"C07/interp.getBinVar/*", hostVar})
+}
